@@ -440,7 +440,7 @@ pub fn reply_for(salt: u64, ch: u16, seq: u32, m: &AMQPClass) -> Option<AMQPClas
         AMQPClass::Basic(Basic::Consume(c)) if !c.nowait => {
             AMQPClass::Basic(Basic::ConsumeOk(basic::ConsumeOk {
                 consumer_tag: if c.consumer_tag.is_empty() {
-                    format!("ctag-{}-{:08x}", ch, u(5))
+                    format!("ctag-{}-{}-{:08x}", ch, seq, u(5))
                 } else {
                     c.consumer_tag.clone()
                 },
